@@ -6,6 +6,8 @@ expression trees are built with the real operators; capability and the dense act
 advertised mode are compared with the model inside coqc (exact Gaussian rationals vs float64, with a
 2^-30 relative closeness predicate evaluated in Coq).
 Direct oracle: NumPy dense-matrix evaluation of the expression (independent of Coq)."""
+import contextlib
+import io
 import json
 import os
 
@@ -117,7 +119,8 @@ class World:
         vecs = [np.eye(self.n)[j].astype(complex) for j in range(self.n)] + [extra]
         for v in vecs:
             x = ift.Field.from_raw(d, v.reshape(d.shape))
-            y = op.apply(x, mode).asnumpy().reshape(-1)
+            with contextlib.redirect_stdout(io.StringIO()):     # MatrixProductOperator.apply prints a debug line
+                y = op.apply(x, mode).asnumpy().reshape(-1)
             cols.append(np.asarray(y, dtype=complex))
         return cols
 
@@ -759,7 +762,8 @@ class C01(C.Check):
                 for j in range(doms[key]):
                     x = {kk: np.zeros(doms[kk], dtype=complex) for kk in d.keys()}
                     x[key][j] = 1.
-                    yf = op.apply(ift.MultiField.from_dict({kk: ift.Field.from_raw(d[kk], v) for kk, v in x.items()}), mode)
+                    with contextlib.redirect_stdout(io.StringIO()):
+                        yf = op.apply(ift.MultiField.from_dict({kk: ift.Field.from_raw(d[kk], v) for kk, v in x.items()}), mode)
                     if yf.domain is not t:
                         raise WrongDomain("the result lives on %s, the advertised output domain is %s" % (sorted(yf.domain.keys()), sorted(t.keys())))
                     y = yf.asnumpy()
